@@ -87,6 +87,7 @@ package stgutg
 //@ shape imsi 15
 //@ requires digits: vc.Forall(0, 15, func(i int) bool { return '0' <= imsi[i] && imsi[i] <= '9' })
 //@ requires index: 0 <= ueNumber && ueNumber < 10000
+//@ requires room: strspec.Value(imsi)+ueNumber < 1000000000000000
 //@ ensures nonnil: result != nil
 //@ ensures supi: result.Supi == "imsi-"+strspec.FormatDec(strspec.Value(imsi)+ueNumber, 15)
 //@ ensures ranid: result.RanUeNgapId == int64((strspec.Value(imsi)+ueNumber)%10000)
